@@ -21,6 +21,15 @@ Theorem C12_n_parallel_reachable : forall n, (0 < n)%nat ->
 Proof. exact n_parallel_reachable. Qed.
 Print Assumptions C12_n_parallel_reachable.
 
+(* ... and still does after any number of executions that ended in a panic, in whichever workers (each is
+   recovered inside the worker's loop): the pool does not shrink, the loop is not left blocked in a hand-over *)
+Theorem C12_n_parallel_after_panics : forall n ws, (0 < n)%nat -> Forall (fun i => (i < n)%nat) ws ->
+  let c := mkd false (Z.of_nat n) in
+  exists s, drun c (dinit c) (panic_rounds ws ++ fill_pool n) = Some s /\ d_inflight s = n /\ d_due s = O /\
+            busy (d_workers s) = n /\ d_lpc s = LIdle /\ d_crashed s = false.
+Proof. exact n_parallel_after_panics. Qed.
+Print Assumptions C12_n_parallel_after_panics.
+
 (* unbounded mode: unbounded c := d_blocking c = false /\ (0 <? d_limit c) = false.
    (a) whether a loop label is enabled depends on the loop's pc, the number of due entries and nothing else;
    (b) the loop is never in a blocking pc;  (c) a due entry reaches ExecStart within 3 labels
